@@ -280,6 +280,67 @@ m("bs-minus-one", "bisect.step", F+"proto/proto_array.go", "\t\t\tmax.Slot = piv
 m("pc-same-twin", "pair.cover", B+"phase0/attester_slashing.go", "if err := ValidateIndexedAttestation(spec, epc, state, sa2); err != nil {", "if err := ValidateIndexedAttestation(spec, epc, state, sa1); err != nil {", "ProcessAttesterSlashing:sa1/sa2")
 m("pc-gossip-twin", "pair.cover", "eth2/gossipval/attester_slashing.go", "phase0.ValidateIndexedAttestation(spec, epc, state, sa2)", "phase0.ValidateIndexedAttestation(spec, epc, state, sa1)", "ValidateAttesterSlashing:sa1/sa2")
 
+
+m("sb-capella-time", "sibling.cmp", B+"capella/execution_payload.go", "} else if executionPayload.Timestamp != expectedTime {", "} else if executionPayload.Timestamp < expectedTime {", "capella.ProcessExecutionPayload~bellatrix")
+m("sb-capella-randao", "sibling.cmp", B+"capella/execution_payload.go", "if executionPayload.PrevRandao != expectedMix {", "if executionPayload.PrevRandao != expectedMix && executionPayload.Timestamp != 0 {", "capella.ProcessExecutionPayload~bellatrix")
+m("sb-electra-bits", "sibling.cmp", B+"electra/attestation_bits.go", "\tbitLen := cb.BitLen()\n\tif bitLen != uint64(len(committee)) {\n\t\treturn 0, fmt.Errorf", "\tbitLen := cb.BitLen()\n\tif bitLen > uint64(len(committee)) {\n\t\treturn 0, fmt.Errorf", "electra.AttestationBits.SingleParticipant~phase0")
+m("sb-deneb-exit", "sibling.cmp", B+"deneb/voluntary_exit.go", "if scheduledExitEpoch != common.FAR_FUTURE_EPOCH {", "if scheduledExitEpoch == common.FAR_FUTURE_EPOCH-1 {", "deneb.ValidateVoluntaryExit~phase0")
+m("sb-delta-lost", "sibling.cmp", B+"deneb/registry.go", "if uint64(len(dequeued)) > churnLimit {", "if uint64(len(dequeued)) >= churnLimit {", "deneb.ProcessEpochRegistryUpdates~phase0")
+
+
+# ---- formula.spec: one arithmetic slip per tabled assignment, generated from the picks of gen_formula_table.py
+def _formula_mutants():
+    import subprocess
+    src = open(os.path.join(os.path.dirname(os.path.abspath(__file__)), "gen_formula_table.py")).read()
+    picks = eval(re.search(r"^PICKS = (\[.*?^\])", src, re.S | re.M).group(1))
+    rows = {}
+    for line in subprocess.check_output(["/verif/bin/zrntlint", "formulas"]).decode().splitlines():
+        p = line.split("|")
+        if len(p) >= 6:
+            rows.setdefault((p[0], p[1]), []).append(p[5])
+    n = 0
+    for fn, target, spec in picks:
+        for text in rows.get((fn, target), [])[:1]:
+            new = None
+            for a, b in ((" / ", " * "), (" * ", " + "), (" + ", " - "), (" - ", " + "), (" % ", " / ")):
+                if a in text:
+                    i = text.index(a)
+                    new = text[:i] + b + text[i+len(a):]
+                    break
+            if not new:
+                continue
+            pkg = fn.split(".")[0]
+            for f in sorted(glob.glob("/repo/" + _DIRS[pkg] + "/*.go")):
+                if f.endswith("_test.go"):
+                    continue
+                s = open(f).read()
+                name = fn.split(".")[-1]
+                fm = re.search(r"^func (\([^)]*\) )?%s\(" % re.escape(name), s, re.M)
+                if not fm:
+                    continue
+                end = s.find("\n}\n", fm.start())
+                i = s.find(text, fm.start(), end if end > 0 else len(s))
+                if i < 0:
+                    continue
+                nth = s.count(text, 0, i) + 1
+                n += 1
+                m("fm-%s-%s" % (fn.replace(".", "_"), re.sub(r"\W", "_", target)), "formula.spec", f[len("/repo/"):], text, new, fn + ":" + target, nth=(0 if s.count(text) == 1 else nth), note=spec)
+                break
+_formula_mutants()
+
+
+U = "eth2/util/"
+m("nh-guard", "numeric.helpers", U+"math/math_util.go", "\tif n == math.MaxUint64 {\n\t\treturn 4294967295\n\t}\n", "", "IntegerSquareroot.max-guard")
+m("nh-guard-value", "numeric.helpers", U+"math/math_util.go", "\t\treturn 4294967295\n", "\t\treturn 4294967296\n", "IntegerSquareroot.max-guard")
+m("nh-newton", "numeric.helpers", U+"math/math_util.go", "y = (x + n/x) >> 1", "y = (x + n/x) >> 2", "IntegerSquareroot.newton")
+m("nh-smear", "numeric.helpers", U+"math/math_util.go", "\tv |= v >> (1 << 5)\n", "", "NextPowerOfTwo.smear")
+m("nh-pow2", "numeric.helpers", U+"math/math_util.go", "return (n > 0) && (n&(n-1) == 0)", "return n&(n-1) == 0", "IsPowerOfTwo")
+m("nh-merkle-side", "numeric.helpers", U+"merkle/crypto_util.go", "if (index>>i)&1 == 1 {", "if (index>>i)&1 == 0 {", "VerifyMerkleBranch.fold")
+m("nh-merkle-depth", "numeric.helpers", U+"merkle/crypto_util.go", "for i := uint64(0); i < depth; i++ {", "for i := uint64(1); i < depth; i++ {", "VerifyMerkleBranch.fold")
+m("nh-time-guard", "numeric.helpers", B+"common/time.go", "if slot >= Slot(max) {", "if slot > Slot(max)+1 {", "TimeAtSlot.overflow-guard")
+m("nh-epoch-guard", "numeric.helpers", B+"common/time.go", "if e != spec.SlotToEpoch(out) {", "if e > spec.SlotToEpoch(out) {", "EpochStartSlot.overflow-guard")
+m("nh-span-guard", "numeric.helpers", "eth2/gossipval/common.go", "if slot+span < slot {", "if slot+span < span {", "CheckSlotSpan.overflow-guard")
+
 # lazy.init / lock.atomic positive cases are today's known findings (no mutant needed: they are violations on the tree)
 
 M = [x for x in M if not x["expect"].startswith("XX")]
